@@ -344,22 +344,31 @@ func cLockDiscipline(e *Env) {
 		}
 		short := o.typ[strings.LastIndex(o.typ, ".")+1:]
 		report := func(m map[string][]site, kind, detail string) {
+			// one obligation per field (not per function: moving the access into another
+			// function must not look like a new report); the sites are listed as facts
+			byField := map[string][]string{}
+			first := map[string]string{}
 			var fs []string
 			for f := range m {
 				fs = append(fs, f)
 			}
 			sort.Strings(fs)
 			for _, f := range fs {
-				fields := map[string]bool{}
 				for _, s := range m[f] {
-					fields[s.field] = true
+					k := protectedKey(s.field)
+					byField[k] = append(byField[k], s.pos+" in "+f)
+					if first[k] == "" {
+						first[k] = s.pos
+					}
 				}
-				var fl []string
-				for k := range fields {
-					fl = append(fl, k)
-				}
-				sort.Strings(fl)
-				r.Bad(short+"."+strings.Join(fl, ",")+": "+kind+" in "+f+" without "+short+"."+mu, m[f][0].pos, detail)
+			}
+			var fields []string
+			for k := range byField {
+				fields = append(fields, k)
+			}
+			sort.Strings(fields)
+			for _, k := range fields {
+				r.Bad(short+"."+k+": "+kind+" without "+short+"."+mu, first[k], detail, "sites: "+strings.Join(dedupe(byField[k]), "; "))
 			}
 		}
 		report(badW, "write", "a field that the code otherwise writes under the mutex is written here without it, while the agent's status handler / other workers read the run state under that mutex: a data race - the recorded or reported status can contain a torn or stale value (for an interface-typed field such as an error, a torn value can crash the reader)")
